@@ -221,6 +221,10 @@ class Circuit:
                 # normal simtask exit is not possible
                 msg = f"The simulation task failed with error: {self._simtask.exception()}"
             raise EdzedInvalidState(msg)
+        if self._error is not None:
+            # the simulation has failed or was stopped (e.g. an error in the very first
+            # evaluation of the circuit); the task is still busy with the cleanup
+            raise EdzedInvalidState(f"The simulation is shutting down: {self._error!r}")
 
     def check_not_finalized(self) -> None:
         """Raise an error if the circuit has been finalized."""
